@@ -138,7 +138,7 @@ func (e *Engine) rootsFor(prop string) (jobs []rootJob, problems []string) {
 		}
 		parts := strings.SplitN(fc.Key, ".", 2)
 		impls := e.implementations(fc.PkgPath, parts[0], parts[1])
-		if len(impls) == 0 {
+		if len(impls) == 0 && prop != "" && isRepoPkg(fc.PkgPath) {
 			problems = append(problems, fmt.Sprintf("anchor-missing: interface contract %s has no implementation", fc.Key))
 		}
 		for _, fn := range impls {
@@ -160,8 +160,8 @@ func (e *Engine) rootsFor(prop string) (jobs []rootJob, problems []string) {
 			continue
 		}
 		fns := e.functionsWithSites(s)
-		if len(fns) < s.MinSites || len(fns) == 0 {
-			problems = append(problems, fmt.Sprintf("anchor-missing: site %s matched %d functions (minimum %d)", s.Name, len(fns), s.MinSites))
+		if n := e.siteInstrCount(s); n < s.MinSites || len(fns) == 0 {
+			problems = append(problems, fmt.Sprintf("anchor-missing: site %s matched %d instructions in %d functions (minimum %d)", s.Name, n, len(fns), s.MinSites))
 		}
 		for _, fn := range fns {
 			// closures are reached through their parent when it inlines them; verify them as roots too
